@@ -282,7 +282,9 @@ def run(ctx):
     # ---- R08.8 the index operations the upsert relies on do what their classification requires (shared with C10 R10.1)
     import c10
     sub = type(ctx)(ctx.prop, ctx.facts, ctx.tier, ctx.config)
-    c10.run(sub)
+    sub.no_share = True
+    if not getattr(ctx, "no_share", False):
+        c10.run(sub)
     for o in sub.obligations:
         if o["rule"] == "R10.1" and any(x in o["key"] for x in ("move-old-to-new", "insert-under-own-expiry", "shard-from-expiry")):
             ctx._add(o["status"], "R08.8", o["key"].split("|", 1)[1], o["desc"] + " [the upsert's TTL change is only effective if the expiry index follows it]", o["where"], o["detail"])
